@@ -176,7 +176,7 @@ theorem exec_setReg_lit (f : Nat) (r : Reg) (v : Val) (s : S) :
 operand -/
 theorem exec_action_single (f : Nat) (k : ActKind) (o : Operand_) (s : S)
     (ht : numOf (s.vm.regs .time) = some 0) (hr : s.vm.status = .running) :
-    execStmt (f + 3) (.action k (.cons o .nil)) s =
+    execStmt (f + 3) (.action k true (.cons o .nil)) s =
       execOperand (f + 1) k o
         (match k with
           | .on => s.setReg .power (.bool true)
@@ -191,7 +191,7 @@ theorem exec_action_single (f : Nat) (k : ActKind) (o : Operand_) (s : S)
   all_goals
     simp only []
     rw [hw _ (by simpa [S.setReg, State.setReg] using ht) (by simpa [S.setReg, State.setReg] using hr)]
-    simp only [execOperands]
+    simp only [execOperands, ↓reduceIte]
     generalize execOperand (f + 1) _ _ _ = R
     obtain ⟨o', s'⟩ := R
     cases o' <;> rfl
